@@ -49,9 +49,93 @@ class Rename(ast.NodeTransformer):
         return self.generic_visit(n)
 
 
+class InlineLocals(ast.NodeTransformer):
+    """replace a local that is assigned exactly once in the function by its definition (temporaries such as
+    name_i = str(self.res[i]) or ratio = int_tmp / int_mc), except the role names of the fraction algebra"""
+
+    def __init__(self, fn, keep):
+        self.defs = {}
+        counts = {}
+        for n in walk_local(fn.node):
+            if isinstance(n, ast.Assign):
+                for t in n.targets:
+                    for x in ast.walk(t):
+                        if isinstance(x, ast.Name) and isinstance(x.ctx, ast.Store):
+                            counts[x.id] = counts.get(x.id, 0) + 1
+                    if isinstance(t, ast.Name):
+                        self.defs[t.id] = n.value
+            elif isinstance(n, (ast.AugAssign, ast.AnnAssign)) and isinstance(n.target, ast.Name):
+                counts[n.target.id] = counts.get(n.target.id, 0) + 2
+            elif isinstance(n, (ast.For, ast.comprehension)):
+                for x in ast.walk(n.target):
+                    if isinstance(x, ast.Name):
+                        counts[x.id] = counts.get(x.id, 0) + 2
+        self.defs = {k: v for k, v in self.defs.items() if counts.get(k) == 1 and k not in keep}
+        self.depth = 0
+
+    def visit_Name(self, n):
+        if isinstance(n.ctx, ast.Load) and n.id in self.defs and self.depth < 6:
+            self.depth += 1
+            try:
+                return self.visit(copy.deepcopy(self.defs[n.id]))
+            finally:
+                self.depth -= 1
+        return n
+
+
 def eval_expr(repo, mod, expr, env):
     tr = Translator(repo)
     return tr.eval(expr, dict(env), mod, 0)
+
+
+def frac_grad_by_interpretation(repo, chk):
+    """FitFractions.get_frac_grad is pure dictionary algebra: interpret it for three resonances with symbolic
+    integrals I_x, I_xy, their gradients and the totals, and compare every entry with the fraction algebra.
+    Robust to any rewriting (temporaries, key variables, loop shape).  Returns the keys decided this way."""
+    from ..sym import SelfObj
+
+    key = "%s::FitFractions.get_frac_grad" % FF
+    fn = repo.fn(key)
+    names = ["a", "b", "c"]
+    Itot, Gtot = sp.Symbol("I"), sp.Symbol("G")
+    ci, cg = {}, {}
+    for i, x in enumerate(names):
+        ci[x], cg[x] = sp.Symbol("I_%s" % x), sp.Symbol("G_%s" % x)
+        for y in names[:i]:
+            ci[(x, y)], cg[(x, y)] = sp.Symbol("I_%s%s" % (x, y)), sp.Symbol("G_%s%s" % (x, y))
+    tr = Translator(repo, hooks={"allow_attr_store": True, "builtin.str": None}, max_depth=2)
+    so = SelfObj(fn.cls, {"res": list(names), "cached_int": dict(ci), "cached_grad": dict(cg), "cached_int_total": Itot, "cached_grad_total": Gtot})
+    try:
+        out = tr.call_fn(fn, [], {"sum_diag": True}, self_obj=so)
+    except Unmodelled as e:
+        chk.info("get_frac_grad not interpretable as dictionary algebra (%s): decided by formula extraction instead" % e)
+        return set()
+    if not (isinstance(out, tuple) and len(out) == 2 and isinstance(out[0], dict) and isinstance(out[1], dict)):
+        raise AnalysisError("get_frac_grad no longer returns (fractions, gradients) dictionaries")
+    ff, gg = out
+    want_f, want_g = {}, {}
+    for i, x in enumerate(names):
+        want_f[x] = ci[x] / Itot
+        want_g[x] = cg[x] / Itot - (ci[x] / Itot) * Gtot / Itot
+    for i, x in enumerate(names):
+        for y in names[:i]:
+            want_f[(x, y)] = ci[(x, y)] / Itot - want_f[x] - want_f[y]
+            want_g[(x, y)] = cg[(x, y)] / Itot - (ci[(x, y)] / Itot) * Gtot / Itot - want_g[x] - want_g[y]
+    want_f["sum_diag"] = sum(want_f[x] for x in names)
+    want_g["sum_diag"] = sum(want_g[x] for x in names)
+    bad = []
+    for label, got, want in (("fraction", ff, want_f), ("gradient", gg, want_g)):
+        if set(got) != set(want):
+            bad.append("%s keys %s, expected %s" % (label, sorted(map(str, got)), sorted(map(str, want))))
+            continue
+        for k in want:
+            if equal(sp.sympify(got[k]), want[k])[0] is not True:
+                bad.append("%s[%s] = %s, the fraction algebra requires %s" % (label, k, got[k], want[k]))
+    chk.instance("A-frac", "FitFractions.get_frac_grad interpreted for three resonances: %d fractions and %d gradients (diagonal, interference, sum) equal FF_i=I_i/I, FF_ij=I_ij/I-FF_i-FF_j and the quotient-rule gradients: %s" % (len(want_f), len(want_g), not bad))
+    chk.instance("A-index", "get_frac_grad visits %d index pairs for n=3 (complete: %s)" % (len([k for k in ff if k != "sum_diag"]), set(ff) == set(want_f)))
+    if bad:
+        chk.violation("A-frac", key, "algebra", "%d entries deviate from the fraction algebra; first: %s" % (len(bad), bad[0]), file=FF, line=fn.lineno)
+    return {key}
 
 
 def clause_a(repo, chk):
@@ -69,8 +153,12 @@ def clause_a(repo, chk):
         ("%s::cal_fitfractions_no_grad" % FF, {"fitFrac"}, set(), False),
         ("%s::FitFractions.get_frac_grad" % FF, {"fit_frac"}, {"g_fit_frac"}, True),
     ]
+    interpreted = frac_grad_by_interpretation(repo, chk)
     for key, fracs, grads, has_grad in impls:
         fn = repo.fn(key)
+        if key in interpreted:
+            pairs = index_set(fn) if False else None
+            continue
         found = {}
         # classify assignments by whether they sit on the i == j side
         def collect(stmts, kind):
@@ -108,13 +196,18 @@ def clause_a(repo, chk):
         for k in need:
             if k not in found:
                 raise AnalysisError("%s: %s %s formula not found" % (key, k[0], k[1]))
-            expr = Rename(fracs, grads).visit(copy.deepcopy(found[k]))
+            expr = InlineLocals(fn, {"int_tmp", "int_mc", "g_int_tmp", "g_int_mc", "gij", "i", "j"} | fracs | grads).visit(copy.deepcopy(found[k]))
+            expr = Rename(fracs, grads).visit(expr)
             ast.fix_missing_locations(expr)
             try:
                 val = eval_expr(repo, fn.mod, expr, base_env)
             except Unmodelled as e:
                 raise AnalysisError("%s: cannot translate %s: %s" % (key, norm_text(found[k]), e))
-            ok, detail = equal(sp.sympify(val), want[k])
+            try:
+                val = sp.sympify(val)
+            except sp.SympifyError:
+                raise AnalysisError("%s: `%s` does not reduce to the role symbols of the fraction algebra (%r)" % (key, norm_text(found[k]), val))
+            ok, detail = equal(val, want[k])
             if ok is None:
                 raise AnalysisError("normaliser too weak: %s" % detail)
             chk.instance("A-frac", "%s %s %s: %s == %s -> %s" % (key.split("::")[1], k[0], k[1], val, want[k], "ok" if ok else "FAIL"))
@@ -127,7 +220,7 @@ def clause_a(repo, chk):
         chk.instance("A-index", "%s visits %d index pairs for n=4 (%s)" % (key.split("::")[1], len(pairs), "complete" if pairs == full else "INCOMPLETE"))
         if pairs != full:
             chk.violation("A-index", key, "index-set", "visits %s, expected every (i,j) with 0<=j<=i<n; missing %s extra %s" % (sorted(pairs), sorted(full - pairs), sorted(pairs - full)), file=FF, line=fn.lineno)
-    chk.require_count("A-frac", 10)
+    chk.require_count("A-frac", 7)
     chk.require_count("A-index", 3)
 
 
@@ -219,9 +312,11 @@ def clause_b(repo, chk):
             chk.violation("B-chains", fn.key, "traversal", "the traversal must build its work list from all of self.chains_idx, visit every used chain and collect every chain amplitude%s (source ok=%s, loop ok=%s, append=%s%s)" % (" and sum them with reduce_sum(axis=0)" if name == "get_amp" else "", ok_src, ok_loop, appended, extra), file=CORE, line=fn.lineno)
     # selection writers: set_used_chains rebinds the complete list it is given
     suc = cls.methods["set_used_chains"]
-    first = suc.node.body[0]
-    ok = isinstance(first, ast.Assign) and norm_text(first.targets[0]) == "self.chains_idx" and norm_text(first.value) in ("list(used_chains)", "used_chains")
-    chk.instance("B-chains", "set_used_chains stores the whole argument: %s" % ok)
+    from .c17 import _set_used_chains_flag
+
+    # interpreted on selections of every length of a three-chain group: chains_idx == list(used), flag consistent
+    ok = _set_used_chains_flag(repo, suc)
+    chk.instance("B-chains", "set_used_chains stores the whole argument (interpreted on six selections): %s" % ok)
     if not ok:
         chk.violation("B-chains", suc.key, "store", "set_used_chains must store list(used_chains) unchanged", file=CORE, line=suc.lineno)
     chk.require_count("B-chains", 5)
